@@ -633,10 +633,61 @@ func gap(r *rand.Rand) []simFrame {
 			out = append(out, transientFrames(r, false)...)
 		}
 	}
-	return append(out, noiseFrames(r, 1)...)
+	out = append(out, noiseFrames(r, 1)...)
+	// adjacent runs must not add up to more than 9 failures in a row (the property's quantifier)
+	kept, run := out[:0], 0
+	for _, f := range out {
+		if f.K == "eintr" || f.K == "eagain" {
+			if run++; run > 9 {
+				continue
+			}
+		} else {
+			run = 0
+		}
+		kept = append(kept, f)
+	}
+	return kept
 }
 
 var scriptErrnos = []int{0, 0, 0, 0, 1, 17, 22, 13, 2, 12, 16, 95}
+
+// pickErrno: mostly the common verdicts, now and then any errno the kernel has a name for
+func pickErrno(r *rand.Rand) int {
+	if r.Intn(5) == 0 {
+		return 1 + r.Intn(133)
+	}
+	return scriptErrnos[r.Intn(len(scriptErrnos))]
+}
+
+// errnoSweepScripts: every command x every errno 1..133 (and a few beyond the named range), as short
+// scripts so that the set of errnos an error text may identify stays small.
+func errnoSweepScripts(r *rand.Rand, first int) []*clScript {
+	var out []*clScript
+	errnos := []int{}
+	for e := 1; e <= 133; e++ {
+		errnos = append(errnos, e)
+	}
+	errnos = append(errnos, 512, 524, 4095)
+	names := []string{"AddRule", "DeleteRule", "GetStatus", "GetRules", "DeleteRules", "SetEnabled", "SetPID", "SetRateLimit", "SetBacklogLimit", "SetFailure", "SetImmutable", "SetBacklogWaitTime"}
+	var cur *clScript
+	for _, name := range names {
+		for _, e := range errnos {
+			if cur == nil || len(cur.Ops) >= 6 {
+				cur = &clScript{Trace: first + len(out), Src: "errno-sweep"}
+				out = append(out, cur)
+			}
+			op := clOp{Name: name, Mode: "wait", Plan: [][]simFrame{append(gap(r), ackFrame(e))}}
+			switch {
+			case name == "AddRule" || name == "DeleteRule":
+				op.Arg = randomPayload(r, 1+r.Intn(60))
+			case strings.HasPrefix(name, "Set"):
+				op.Value = limbs(uint32(r.Intn(3)))
+			}
+			cur.Ops = append(cur.Ops, op)
+		}
+	}
+	return out
+}
 
 func randomPayload(r *rand.Rand, n int) []int {
 	p := make([]byte, n)
@@ -655,11 +706,11 @@ func genClientScript(r *rand.Rand, trace, length int, profile string) *clScript 
 		if name == "SetFailure" {
 			v = uint32(r.Intn(3))
 		}
-		errno := scriptErrnos[r.Intn(len(scriptErrnos))]
+		errno := pickErrno(r)
 		sc.Ops = append(sc.Ops, clOp{Name: name, Mode: mode, Value: limbs(v), Plan: [][]simFrame{append(gap(r), ackFrame(errno))}})
 	}
 	addWaitOp := func() {
-		errno := scriptErrnos[r.Intn(len(scriptErrnos))]
+		errno := pickErrno(r)
 		ackScript := append(gap(r), ackFrame(errno))
 		switch x := r.Intn(100); {
 		case x < 25:
@@ -689,7 +740,7 @@ func genClientScript(r *rand.Rand, trace, length int, profile string) *clScript 
 			} else {
 				full := [][]simFrame{plan}
 				for i := 0; i < nrules; i++ {
-					full = append(full, append(gap(r), ackFrame(scriptErrnos[r.Intn(len(scriptErrnos))])))
+					full = append(full, append(gap(r), ackFrame(pickErrno(r))))
 				}
 				sc.Ops = append(sc.Ops, clOp{Name: "DeleteRules", Mode: "wait", Plan: full})
 			}
@@ -746,11 +797,17 @@ func clientGenCmd(args []string) int {
 	length := fs.Int("len", 12, "operations per script")
 	profile := fs.String("profile", "C08", "C08 | C16 | C17")
 	first := fs.Int("first", 1, "first trace id")
+	sweep := fs.Bool("sweep", false, "append the command x errno sweep (trace ids from 6000000)")
 	out := fs.String("out", "", "output")
 	fs.Parse(args)
 	w := newNDWriter(*out)
 	for i := 0; i < *n; i++ {
 		w.write(genClientScript(newRand(*seed, int64(*first+i)), *first+i, *length, *profile))
+	}
+	if *sweep {
+		for _, sc := range errnoSweepScripts(newRand(*seed, 6000000), 6000000) {
+			w.write(sc)
+		}
 	}
 	w.close()
 	return 0
